@@ -46,6 +46,8 @@ def valid(case):
         from ..findings import all_keys
         for x in s:
             ks = list(all_keys(x))
+            if gen.class_name_collision(sorted(set(ks))):
+                return False
             if any(not isinstance(k, str) or gen.key_status(k) is not None for k in ks):
                 return False
             for ob in _objects(x):
